@@ -325,7 +325,7 @@ for (top, bottom) in ((0, 2), (0, 1), (1, 2)):
             opt += PR_OPT_NOSTEP
         quick = (row, top, bottom) in ((2, 0, 2), (1, 0, 2), (1, 0, 1), (2, 1, 2), (2, 0, 1))
         prnt(3, 3, row, top, bottom, {"C04": Q if quick else T, "C15": Q if (row, top, bottom) == (1, 0, 2) else T,
-                                       "C08": Q if (row, top, bottom) == (1, 0, 2) else T, "C02": Q if (row, top, bottom) == (2, 0, 2) else T,
+                                       "C08": Q if (row, top, bottom) == (1, 0, 2) else T, "C02": Q if (row, top, bottom) in ((2, 0, 2), (2, 0, 1)) else T,
                                        "C06": Q if (row, top, bottom) == (2, 1, 2) else T, "C14": T, "C17": T, "C16": T, "C01": T}, opt=opt)
 prnt(1, 1, 0, 0, 0, {"C04": Q, "C01": Q}, sb=0, opt=PR_OPT_NOSTEP + ["insert mode in the middle of the row"])
 prnt(1, 3, 1, 0, 2, {"C04": T, "C01": T}, sb=0, opt=PR_OPT_NOSCROLL + ["insert mode in the middle of the row"], suffix="")
@@ -448,9 +448,10 @@ for (cols, rows, nc, nr, k, quick) in ((8, 2, 17, 2, "SYM", True), (16, 2, 9, 2,
                                       "C06": Q if k == "2" else T, "C02": T, "C15": T, "C04": T}, tabs_k=k)
 
 
-def gc(cols, rows, sb, limit, alt, drain, props, mem=8, tn=True):
-    kw = dict(sb=sb, alt=alt, limit=limit)
-    inst("gc__%dx%d_sb%d_l%s_%s_%s%s" % (cols, rows, sb, limit.replace("Some(", "").replace(")", "").lower(), "alt" if alt else "pri", "drain" if drain else "drop", "" if tn else "_noflag"), "terminal",
+def gc(cols, rows, sb, limit, alt, drain, props, mem=8, tn=True, parked=(0, 0)):
+    kw = dict(sb=sb, alt=alt, limit=limit, parked_rows=parked[0], parked_sb=parked[1])
+    inst("gc__%dx%d_sb%d_l%s_%s_%s%s%s" % (cols, rows, sb, limit.replace("Some(", "").replace(")", "").lower(), "alt" if alt else "pri", "drain" if drain else "drop", "" if tn else "_noflag",
+                                          "_parked%d_%d" % parked if parked[0] else ""), "terminal",
          "t_gc(%s, %s, %s)" % (tcfg(cols, rows, **kw), "true" if drain else "false", "true" if tn else "false"), max(cols, rows + sb, 14) + 3, props, mem=mem, timeout=1500,
          desc="changes() then gc() with %d scrollback line(s), limit %s, %s screen, iterator %s: exactly the oldest lines beyond the soft limit leave, in order and unchanged; "
               "retention bound; view, cursor, modes unchanged" % (sb, limit, "alternate" if alt else "primary", "drained" if drain else "dropped unconsumed"),
@@ -536,3 +537,30 @@ for (la, lb, ln, aw, bw, bt) in EXT:
 for (cols, rows, sb) in ((2, 2, 2), (3, 3, 2), (1, 2, 3), (2, 1, 4)):
     inst("rpos__%dx%d_sb%d" % (cols, rows, sb), "buffer", "t_rpos(%d, %d, %d)" % (cols, rows, sb), rows + sb + 4, {"C10": Q if cols == 2 and rows == 2 else T, "C01": T},
          desc="Buffer::relative_position(logical_position(p)) == p for any soft-wrap marks over %d lines" % (rows + sb), bounds="%dx%d + %d scrollback lines" % (cols, rows, sb))
+
+# alternate screen showing while the parked primary still has lines pending for trimming (scrolled and switched in one call)
+gc(2, 2, 0, "Some(1)", 1, True, {"C14": Q, "C16": Q, "C13": T, "C12": T}, parked=(2, 2))
+gc(2, 2, 1, "Some(1)", 1, False, {"C14": T, "C16": T, "C13": T}, parked=(2, 3))
+
+
+# ----------------------------------------------------------------------------- T-plain (C09)
+def plain(cols, rows, crow, sb, step, props, mem=8):
+    kw = dict(sb=sb, alt=0, limit="None", crow=crow, top=0, bottom=rows - 1)
+    opt = []
+    if crow != rows - 1 or step == "Print":
+        opt.append("the text scrolls")
+    if step != "Print":
+        opt.append("the line exactly fills the width")
+    if step == "CrLf":
+        opt.append("non-Latin-1 character")
+    inst("pl_%s__%dx%d_r%d_sb%d" % (step.lower(), cols, rows, crow, sb), "terminal", "t_plain(%s, PlainStep::%s)" % (tcfg(cols, rows, **kw), step),
+         max(cols, rows + sb + 1, 13) + 3, props, mem=mem, timeout=1500, stubs=[ROTATE_STUB], optional_covers=opt,
+         desc="plain-text step %s from any Plain state (lines above the cursor arbitrary): exactly one cell written / row left marked soft-wrapped / next line started, "
+              "no other cell or mark changes in absolute line coordinates, a line is appended exactly on the last row, the state is Plain again" % step,
+         bounds="%dx%d, cursor row %d, %d scrollback line(s), unlimited scrollback, primary screen" % (cols, rows, crow, sb))
+
+
+for step in ("Print", "PrintWrap", "CrLf"):
+    for (cols, rows, crow, sb) in ((2, 2, 1, 1), (3, 2, 0, 0), (1, 2, 1, 2), (3, 3, 2, 1), (1, 1, 0, 1), (2, 3, 1, 0), (3, 1, 0, 2)):
+        quick = (cols, rows, crow, sb) in ((2, 2, 1, 1), (3, 2, 0, 0)) or ((cols, rows, crow, sb) == (1, 2, 1, 2) and step == "PrintWrap")
+        plain(cols, rows, crow, sb, step, {"C09": Q if quick else T, "C01": T})
